@@ -29,6 +29,9 @@ pub struct GenCfg {
     pub drain: bool,
     /// market orders as a percentage of creations
     pub market_pct: u32,
+    /// deep queues: 85% of limit orders rest at one of two non-crossing prices of their own side
+    /// (bids at mid-1/mid, asks at mid+1/mid+2), the rest and all market orders trade through them
+    pub narrow: bool,
 }
 
 impl GenCfg {
@@ -52,6 +55,7 @@ impl GenCfg {
             start_off_pct: 0,
             drain: true,
             market_pct: 20,
+            narrow: false,
         }
     }
 }
@@ -67,18 +71,22 @@ struct Frame {
     mid: u32,
     wide: bool,
     offgrid: bool,
+    narrow: bool,
 }
 
 fn price_strategy(f: &Frame) -> BoxedStrategy<u32> {
     let tick = f.tick;
     let mid = f.mid;
-    let dense = (0u32..7).prop_map(move |d| (mid - 3 + d) * tick).boxed();
+    let dense = if f.narrow { (0u32..4).prop_map(move |d| (mid - 1 + d) * tick).boxed() } else { (0u32..7).prop_map(move |d| (mid - 3 + d) * tick).boxed() };
     let mut v: Vec<(u32, BoxedStrategy<u32>)> = vec![(if f.wide { 50 } else { 100 }, dense)];
     if f.wide {
         let km = kmax(tick);
         v.push((8, prop_oneof![Just(tick), Just(2 * tick.min(u32::MAX / 4)), Just(km * tick), Just((km - 1) * tick)].boxed()));
         v.push((30, (1u32..=km).prop_map(move |k| k * tick).boxed()));
         v.push((12, (0u32..2000).prop_map(move |d| (mid.saturating_sub(1000).max(1) + d).min(km) * tick).boxed()));
+        // complements of the dense band (2^32-1-p, snapped down to the grid): the bid side is keyed by
+        // 2^32-1-price, so p and its complement are the natural pair of related magic values
+        v.push((8, (0u32..7).prop_map(move |d| (((u32::MAX - (mid - 3 + d) * tick) / tick).min(km).max(1)) * tick).boxed()));
     }
     if f.offgrid {
         // arbitrary prices: half of them off the grid whenever tick > 1
@@ -131,7 +139,25 @@ fn op_strategy(cfg: &GenCfg, f: &Frame) -> BoxedStrategy<Op> {
     let vol = vol_strategy(cfg.wide);
     let trader = trader_strategy(cfg.wide);
     let rf = ref_strategy(cfg.redundant_skew);
-    let new_order = (any::<bool>(), vol.clone(), trader, opt_price).boxed();
+    let new_order = if cfg.narrow {
+        let (tick, mid, m) = (f.tick, f.mid, cfg.market_pct);
+        (any::<bool>(), vol.clone(), trader, 0u32..100, 0u32..2, 0u32..4)
+            .prop_map(move |(bid, vol, trader, r, k, anyk)| {
+                let price = if r < m {
+                    None
+                } else if r < m + 12 {
+                    Some((mid - 1 + anyk) * tick)
+                } else if bid {
+                    Some((mid - 1 + k) * tick)
+                } else {
+                    Some((mid + 1 + k) * tick)
+                };
+                (bid, vol, trader, price)
+            })
+            .boxed()
+    } else {
+        (any::<bool>(), vol.clone(), trader, opt_price).boxed()
+    };
     let mod_price = (0u32..100, price.clone()).prop_map(|(r, p)| if r < 45 { None } else { Some(p) }).boxed();
     let mod_vol = (0u32..100, vol.clone()).prop_map(|(r, v)| if r < 30 { None } else { Some(v) }).boxed();
     let mut v: Vec<(u32, BoxedStrategy<Op>)> = vec![];
@@ -183,7 +209,7 @@ pub fn book_case_strategy(cfg: GenCfg) -> BoxedStrategy<BookCase> {
     );
     head.prop_flat_map(move |(tick, levels, mid, t0, off)| {
         let mid = mid.min(kmax(tick).saturating_sub(4)).max(4);
-        let f = Frame { tick, mid, wide: cfg.wide, offgrid: cfg.offgrid };
+        let f = Frame { tick, mid, wide: cfg.wide, offgrid: cfg.offgrid, narrow: cfg.narrow };
         let trading = off >= cfg.start_off_pct;
         let (tie, drain) = (cfg.tie, cfg.drain);
         proptest::collection::vec(op_strategy(&cfg, &f), 0..=cfg.max_len).prop_map(move |ops| BookCase { tick, levels, trading, t0, tie, ops, drain })
@@ -272,7 +298,7 @@ pub fn market_case_strategy(cfg: GenCfg, max_assets: usize) -> BoxedStrategy<Mar
             .enumerate()
             .map(|(a, (tick, mid))| {
                 let mid = (*mid).min(kmax(*tick).saturating_sub(4)).max(4);
-                let f = Frame { tick: *tick, mid, wide: cfg.wide, offgrid: cfg.offgrid };
+                let f = Frame { tick: *tick, mid, wide: cfg.wide, offgrid: cfg.offgrid, narrow: cfg.narrow };
                 (1u32, op_strategy(&cfg, &f).prop_map(move |op| (a as u8, op)).boxed())
             })
             .collect();
@@ -326,7 +352,11 @@ fn instr_strategy(cfg: &EnvGenCfg, frames: &[Frame]) -> BoxedStrategy<Instr> {
             let any_price = price_strategy(f);
             let m = cfg.market_pct;
             let offgrid = f.offgrid;
-            let new = (any::<bool>(), vol_strategy(f.wide), 0u32..6, 0u32..100, bid_price, ask_price, any_price.clone()).prop_map(move |(bid, vol, trader, r, bp, ap, anyp)| {
+            // market orders: half of them larger than any side the generator builds (volumes <= 12 per
+            // order), so that sweeps of a whole side with a discarded remainder are a regular class
+            let vol_s = (vol_strategy(f.wide), 0u32..100, 200u32..5000).prop_map(|(v, r, big)| (v, if r < 50 { big } else { v }));
+            let new = (any::<bool>(), vol_s, 0u32..6, 0u32..100, bid_price, ask_price, any_price.clone()).prop_map(move |(bid, (vol, mvol), trader, r, bp, ap, anyp)| {
+                let vol = if r < m { mvol } else { vol };
                 let price = if r < m {
                     None
                 } else if offgrid && r % 2 == 0 {
@@ -366,7 +396,7 @@ pub fn env_case_strategy(cfg: EnvGenCfg) -> BoxedStrategy<EnvCase> {
         let n = (kind_assets as usize).max(1);
         let levels = if kind_assets == 0 { l_env } else { l_mkt };
         let ticks: Vec<u32> = tm.iter().take(n).map(|x| x.0).collect();
-        let frames: Vec<Frame> = tm.iter().take(n).map(|(tick, mid)| Frame { tick: *tick, mid: *mid, wide: false, offgrid: cfg.offgrid }).collect();
+        let frames: Vec<Frame> = tm.iter().take(n).map(|(tick, mid)| Frame { tick: *tick, mid: *mid, wide: false, offgrid: cfg.offgrid, narrow: false }).collect();
         let trading = off >= cfg.start_off_pct;
         let is_large = !cfg.overfull && large < cfg.large_batch_pct;
         let (step_size_s, batch_range): (BoxedStrategy<u64>, std::ops::RangeInclusive<usize>) = if cfg.overfull {
